@@ -136,6 +136,8 @@ def flatten(items):
     :param items: input list
     :return: list with the same elements of the input list but a single nesting level.
     """
+    # work on a copy: the caller's list (and its sub-lists) must be left as they are
+    items = list(items)
     try:
         for i, x in enumerate(items):
             while isinstance(x, (list, tuple)) and not isinstance(x, (str, bytes)):
